@@ -86,26 +86,28 @@ type deferRec struct {
 }
 
 type State struct {
-	cells    map[*Cell]Val
-	order    []*Cell
-	heap     map[string]Term
-	ghost    map[string]Term
-	pc       []string
-	pcSet    map[string]bool
-	eqConst  map[string]string
-	defers   map[int][]deferRec // by frame id
-	trace    []string
-	loopIn   map[loopKey]*loopEntry
-	shared   map[*Cell]bool
-	held     []string // mutexes currently held (textual id of the lock term)
-	allocTop Term
-	epoch    int
-	colFrame int
-	colBody  map[*ssa.BasicBlock]bool
-	dead     bool
-	writes   *WriteSet
-	chanInfo map[string]*chanInfo
-	named    []namedRef
+	cells      map[*Cell]Val
+	order      []*Cell
+	heap       map[string]Term
+	ghost      map[string]Term
+	pc         []string
+	pcSet      map[string]bool
+	eqConst    map[string]string
+	defers     map[int][]deferRec // by frame id
+	trace      []string
+	loopIn     map[loopKey]*loopEntry
+	shared     map[*Cell]bool
+	held       []string // mutexes currently held (textual id of the lock term)
+	allocTop   Term
+	epoch      int
+	colFrame   int
+	colBody    map[*ssa.BasicBlock]bool
+	dead       bool
+	writes     *WriteSet
+	chanInfo   map[string]*chanInfo
+	named      []namedRef
+	scopeNeeds []scopeNeed     // row sources introduced on this path that still need an owner predicate (scope.go)
+	ctes       map[string]bool // names defined by With(name, ...) on this path
 }
 
 type namedRef struct {
@@ -217,6 +219,13 @@ func (s *State) clone() *State {
 	}
 	n.held = append([]string{}, s.held...)
 	n.named = append([]namedRef{}, s.named...)
+	n.scopeNeeds = append([]scopeNeed{}, s.scopeNeeds...)
+	if s.ctes != nil {
+		n.ctes = map[string]bool{}
+		for k := range s.ctes {
+			n.ctes[k] = true
+		}
+	}
 	return n
 }
 
